@@ -46,7 +46,7 @@ CHECKS = {
     "C11": {
         "text": "Exhaustive within bounds: every unit impulse (plus the constant and a dense vector) on every grid shape of the stated range, three spacings and both precisions is solved by the real 2-D/3-D fast-diagonalisation solvers and checked against an independently assembled dense Neumann Laplacian (A u = f - mean f, mean u = 0, real, working precision); a BFS over histories of solves / vector solves / spectral-buffer poisonings checks buffer reuse. The solver is linear, so the impulse basis decides it on each enumerated shape.",
         "design_ref": "DESIGN.md section 5 C11, sections 4.2 and 4.3",
-        "note": "Trusted: LAPACK; residual tolerance 200 eps n_max^2 ||f||. Large shapes (> 160 cells) use a strided subset of impulses (reported in the evidence).",
+        "note": "Trusted: LAPACK; residual tolerance 64 eps cond(A) ||f|| with the analytic condition number of the Neumann Laplacian (calibrated <= 4 eps cond on the unchanged tree); right-hand sides: unit impulses, all cosine eigenmodes, constant, dense, amplitudes 1e-20..1e10. Large shapes (> 160 cells) use a strided subset of impulses (reported in the evidence).",
         "technique": "basis enumeration of the full solution operator vs dense reference matrix + explicit-state BFS over solver histories",
     },
     "C16": {
